@@ -191,6 +191,14 @@ def check_repo(repo, ids, parents, times, anc, cls, viol, stats, level, rng, wal
                 if sorted(got) != sorted(want):
                     V("C13/walk-since-until/" + ("missed-commit" if set(want) - set(got) else "extra-or-duplicate"),
                       got=got, want=want, inc=list(inc), since=since, until=until)
+                else:
+                    # option combinations: a limit counts the commits that pass the filters, so the limited walk is a prefix of the filtered one
+                    for k in (1, 2):
+                        stats["walks"] = stats.get("walks", 0) + 1
+                        gk = [idx[e.commit.id] for e in Walker(store, [ids[i] for i in inc], since=since, until=until, max_entries=k)]
+                        if gk != got[:k]:
+                            V("C13/walk-max-entries/not-a-prefix-of-the-filtered-walk/" + ("+".join(n_ for n_, v_ in (("since", since), ("until", until)) if v_ is not None)),
+                              got=gk, filtered=got, inc=list(inc), k=k, since=since, until=until)
         full = [idx[e.commit.id] for e in Walker(store, [ids[i] for i in inc])]
         for k in (1, 2):
             stats["walks"] = stats.get("walks", 0) + 1
